@@ -497,6 +497,9 @@ pub fn workload(name: &str, tier: &str) -> Option<Box<dyn Workload>> {
         "c03" => Some(Box::new(c03::Docs {
             n: if quick { 100_000 } else { 3_000_000 },
         })),
+        "c03cli" => Some(Box::new(c03::CliTargets {
+            n: if quick { 150 } else { 3000 },
+        })),
         "c04" => Some(Box::new(c04::Crash {
             plan: texts::TextPlan::new(quick),
         })),
